@@ -211,7 +211,18 @@ def walk_stage(tools, work, ev, rep, tier):
         rc, o, e = sh([tools + "/rdsquashfs", "-d", d + "/a.sqfs"], timeout=60)
         if rc:
             return i, "rdsquashfs -d fails: %s" % e.decode(errors="replace")[-120:]
-        got = [l.split()[1] for l in o.decode().split("\n") if l.strip()]
+        def name_of(l):
+            rest = l.split(None, 1)[1]
+            if rest.startswith('"'):                       # a quoted field: up to the closing quote, backslash escapes the next character
+                out, k = "", 1
+                while k < len(rest) and rest[k] != '"':
+                    if rest[k] == "\\":
+                        k += 1
+                    out += rest[k]
+                    k += 1
+                return out
+            return rest.split()[0]
+        got = [name_of(l) for l in o.decode().split("\n") if l.strip()]
         want = ["/".join(p) for p in c["listing"]]
         if sorted(got) != sorted(want):
             return i, "listing has %d lines for %d entries: missing %s, extra %s" % (len(got), len(want), sorted(set(want) - set(got))[:4], sorted(set(got) - set(want))[:4])
